@@ -1,7 +1,7 @@
 (** C15 - kerning groups are validated, and legacy kerning is upconverted faithfully.
     Statements only; proofs live in Proofs/GroupsP.v and Proofs/KernUpconvP.v.
     Model: Model/Groups.v (validate_groups, upconvert_kerning, make_unique_group_name and the
-    call sites in Font::load_impl / Font::save_impl, as the code is at abb0fdd). *)
+    call sites in Font::load_impl / Font::save_impl, as the code is at 090c163). *)
 Require Import Norad.Model.Base Norad.Model.Groups Norad.Proofs.GroupsP Norad.Proofs.KernUpconvP.
 Open Scope N_scope.
 
@@ -30,34 +30,35 @@ Qed.
 
 (** Invalid groups are never returned by a load and never written by a save; all others are
     accepted (format 3: returned as they are; format 1/2: see C15_load_legacy_accepts). *)
-Theorem C15_load_returns_only_ok : forall v3 g k interned g' k',
-  load_gk v3 g k interned = Ok (g', k') -> groups_ok g' /\ (forall g0, g = Some g0 -> groups_ok g0).
+Theorem C15_load_returns_only_ok : forall v3 g k glyphs g' k',
+  load_gk v3 g k glyphs = Ok (g', k') -> groups_ok g' /\ (forall g0, g = Some g0 -> groups_ok g0).
 Proof. exact load_only_ok. Qed.
-Theorem C15_load_refuses_invalid : forall v3 g k interned,
-  ~ groups_ok g -> exists e, load_gk v3 (Some g) k interned = Err (LInvalidGroups e).
+Theorem C15_load_refuses_invalid : forall v3 g k glyphs,
+  ~ groups_ok g -> exists e, load_gk v3 (Some g) k glyphs = Err (LInvalidGroups e).
 Proof. exact load_refuses_invalid. Qed.
-Theorem C15_load_v3_accepts_iff : forall g k interned,
-  groups_ok g <-> load_gk true (Some g) k interned = Ok (g, kern_or_empty k).
+Theorem C15_load_v3_accepts_iff : forall g k glyphs,
+  groups_ok g <-> load_gk true (Some g) k glyphs = Ok (g, kern_or_empty k).
 Proof. exact load_v3_iff. Qed.
 Theorem C15_save_iff : forall g, save_groups g = Ok tt <-> groups_ok g.
 Proof. exact validate_iff. Qed.
 (** valid legacy groups are converted; the load is refused only when the converted groups
     violate the rule themselves (then they must not be returned, by the first sentence) *)
-Theorem C15_load_legacy_accepts : forall g k interned,
+Theorem C15_load_legacy_accepts : forall g k glyphs,
   groups_ok g ->
-  exists g' k', upconvert_kerning g (kern_or_empty k) interned = Ok (g', k') /\
-    ((groups_ok g' /\ load_gk false (Some g) k interned = Ok (g', k')) \/
-     (~ groups_ok g' /\ exists e, load_gk false (Some g) k interned = Err (LUpconversionFailure e))).
+  exists g' k', upconvert_kerning g (kern_or_empty k) glyphs = Ok (g', k') /\
+    ((groups_ok g' /\ load_gk false (Some g) k glyphs = Ok (g', k')) \/
+     (~ groups_ok g' /\ exists e, load_gk false (Some g) k glyphs = Err (LUpconversionFailure e))).
 Proof. exact load_legacy_accepts. Qed.
-Theorem C15_load_no_panic : forall v3 g k interned s, load_gk v3 g k interned <> Panic s.
+Theorem C15_load_no_panic : forall v3 g k glyphs s, load_gk v3 g k glyphs <> Panic s.
 Proof. exact load_no_panic. Qed.
 
 (** ** the unique-name loop *)
 
-(** the fuel |groups|+1 always suffices, and the name returned is not in use and is the base
-    name or the base name followed by the least counter >= 1 whose candidate is free *)
-Theorem C15_unique_terminates : forall base g,
-  exists n, make_unique base g = Some n /\ UniqueOf base g n.
+(** the fuel |groups|+|kerning keys of the side|+1 always suffices, and the name returned is
+    neither a group name nor a kerning key of the side and is the base name or the base name
+    followed by the least counter >= 1 whose candidate is free *)
+Theorem C15_unique_terminates : forall base g kk,
+  exists n, make_unique base g kk = Some n /\ UniqueOf base (keys g ++ kk) n.
 Proof. exact make_unique_spec. Qed.
 
 (** ** the conversion *)
@@ -66,76 +67,57 @@ Proof. exact make_unique_spec. Qed.
 Theorem C15_upconvert_total : forall g k gs, exists g' k', upconvert_kerning g k gs = Ok (g', k').
 Proof. exact upconvert_total. Qed.
 
-(** groups part, unconditionally: originals kept, exactly the groups the text names are
-    duplicated under fresh, pairwise distinct names of their side with identical members,
-    nothing else is added; the kerning is the input renamed through the two tables *)
+(** groups part: originals kept, exactly the groups the text names are duplicated under
+    fresh, pairwise distinct names of their side with identical members, nothing else is added;
+    the new names also avoid the kerning keys of their side; the kerning is the input renamed
+    through the two tables *)
 Theorem C15_upconvert_groups_meet_spec : forall g k gs g' k',
   upconvert_kerning g k gs = Ok (g', k') ->
   exists r1 r2, upconvert_tables g k gs = Ok (g', r1, r2) /\ k' = rename_kerning r1 r2 k /\
-                UpconvertedGroups g k gs r1 r2 g'.
+                UpconvertedGroups g k gs r1 r2 g' /\ TablesFresh k r1 r2.
 Proof. exact upconvert_groups_meet_spec. Qed.
 
-(** the full relation of the property text, outside the class PairCollision *)
+(** the full relation of the property text, for every groups/kerning/glyph-set triple (the
+    kerning being a map of maps) *)
 Theorem C15_upconvert_meets_spec : forall g k gs g' k',
-  upconvert_kerning g k gs = Ok (g', k') -> ~ PairCollision g k gs -> Upconverted g k gs g' k'.
+  wf_kerning k -> upconvert_kerning g k gs = Ok (g', k') -> Upconverted g k gs g' k'.
 Proof. exact upconvert_meets_spec. Qed.
 
 (** every pair is rewritten to the new names with its value unchanged, and nothing else is in
-    the kerning - when no two keys coincide after renaming *)
-Theorem C15_pairs_preserved : forall r1 r2 k,
-  no_pair_collision r1 r2 k = true -> PairsRenamed r1 r2 k (rename_kerning r1 r2 k).
-Proof. exact pairs_renamed. Qed.
+    the kerning: no two kerning keys coincide after renaming *)
+Theorem C15_pairs_preserved : forall g k gs g' r1 r2,
+  wf_kerning k -> upconvert_tables g k gs = Ok (g', r1, r2) ->
+  PairsRenamed r1 r2 k (rename_kerning r1 r2 k).
+Proof.
+  intros g k gs g' r1 r2 W T. apply pairs_renamed.
+  destruct (upconvert_tables_spec g k gs) as (g2 & s1 & s2 & T' & U & F). rewrite T in T'.
+  injection T' as <- <- <-. exact (no_collision g k gs r1 r2 g' W U F).
+Qed.
 
-(** even inside the class nothing is invented or altered: pairs can only be lost *)
+(** for any association list nothing is invented or altered *)
 Theorem C15_pairs_sound : forall r1 r2 k a' b' v,
   pair_in (rename_kerning r1 r2 k) a' b' v ->
   exists a b row, In (a, row) k /\ In (b, v) row /\ a' = ren r1 a /\ b' = ren r2 b.
 Proof. exact pairs_sound. Qed.
 
-(** ** the property at the call site, its full-strength form and the two refutations *)
-
-(** Full strength: whatever a format 1/2 load returns is the conversion the glyph names demand
-    (the interner holds at least the glyph names). *)
-Definition C15_full : Prop :=
-  forall g k interned glyphs g' k',
-    incl glyphs interned ->
-    load_gk false (Some g) k interned = Ok (g', k') ->
-    Upconverted g (kern_or_empty k) glyphs g' k'.
-
-(** refuted by a kerning key equal to a freshly made group name (pair (A, y) = 1 is lost) *)
-Theorem C15_refuted_PairCollision : ~ C15_full.
-Proof.
-  intro F. apply pc_not_upconverted.
-  exact (F pc_groups (Some pc_kerning) [] [] _ _ (fun x H => H) pc_result).
-Qed.
-(** refuted by a group name that is in the interner without being a glyph name (F21) *)
-Theorem C15_refuted_F21 : ~ C15_full.
-Proof.
-  intro F. apply f21_not_upconverted.
-  refine (F f21_groups (Some f21_kerning) [nG; na] [na] _ _ _ f21_result).
-  intros x [<-|[]]. right. left. reflexivity.
-Qed.
-(** both witnesses lie in their class, each outside the other *)
-Example C15_witnesses_in_class :
-  PairCollision pc_groups pc_kerning [] /\ ~ ClassF21 pc_groups pc_kerning [] [] /\
-  ClassF21 f21_groups f21_kerning [nG; na] [na] /\ ~ PairCollision f21_groups f21_kerning [nG; na].
-Proof.
-  split; [exact pc_in_class|]. split; [intro H; apply H; split; intro c; reflexivity|].
-  split; [exact f21_in_class|]. vm_compute. discriminate.
-Qed.
-
-(** the positive theorem under exactly the two class hypotheses *)
-Theorem C15_load_legacy_meets_spec : forall g k interned glyphs g' k',
-  load_gk false (Some g) k interned = Ok (g', k') ->
-  ~ ClassF21 g (kern_or_empty k) interned glyphs ->
-  ~ PairCollision g (kern_or_empty k) interned ->
+(** ** the property at the call site: whatever a format 1/2 load returns is the conversion the
+    glyph names of the loaded layers demand *)
+Theorem C15_load_legacy_meets_spec : forall g k glyphs g' k',
+  wf_kerning (kern_or_empty k) ->
+  load_gk false (Some g) k glyphs = Ok (g', k') ->
   Upconverted g (kern_or_empty k) glyphs g' k'.
 Proof. exact load_legacy_spec. Qed.
 
-(** the executable class predicate used by the correspondence run decides ClassF21 *)
-Theorem C15_same_candsb_decides : forall g k a b, same_candsb g k a b = true <-> ~ ClassF21 g k a b.
+(** the witnesses of the two repaired defects (PairCollision 3ac97c0, F21 090c163) now satisfy
+    the relation: both pairs survive; the group G is converted *)
+Example C15_former_witnesses :
+  Upconverted pc_groups pc_kerning [] [(nA, [nx]); (K1 ++ nA ++ [49], [nx])]
+              [(K1 ++ nA, [(ny, 2)]); (K1 ++ nA ++ [49], [(ny, 1)])] /\
+  Upconverted f21_groups f21_kerning [na] [(nG, [nx]); (K1 ++ nG, [nx])] [(K1 ++ nG, [(ny, 5)])].
 Proof.
-  intros g k a b. rewrite same_candsb_spec. split; [intros S H; exact (H S) | apply not_ClassF21].
+  split.
+  - exact (load_legacy_spec pc_groups (Some pc_kerning) [] _ _ pc_wf pc_result).
+  - exact (load_legacy_spec f21_groups (Some f21_kerning) [na] _ _ f21_wf f21_result).
 Qed.
 
 (** ** non-vacuity *)
@@ -167,5 +149,9 @@ Example C15_upconvert_example :
     Ok ([(A, [x]); (MMKL ++ A, [y]); (K1 ++ A, []); (K1 ++ A ++ [49], [y]); (K1 ++ A ++ [50], [x]);
          (K2 ++ MMKL ++ A, [y])],
         [(K1 ++ A ++ [50], [(K2 ++ MMKL ++ A, 7)])]) /\
-  ~ PairCollision g k [].
-Proof. cbv zeta. split; [vm_compute; reflexivity | vm_compute; discriminate]. Qed.
+  wf_kerning k.
+Proof.
+  cbv zeta. split; [vm_compute; reflexivity|]. split.
+  - apply nodupb_spec. vm_compute. reflexivity.
+  - intros e [<-|[]]. apply nodupb_spec. vm_compute. reflexivity.
+Qed.
